@@ -91,6 +91,7 @@ class Engine:
         self.rstack = [[]]
         self.exc_stack = []
         self.finally_depth = 0
+        self.try_depth = 0
         self.fresh = itertools.count()
         self.nfork = 0
         self.label = label
@@ -151,6 +152,9 @@ class Engine:
         if isinstance(exc, str):
             exc = ExcVal(exc)
         self.nfork += 1
+        if fault:
+            st.ghost["faulted"] = True          # an injected fault: the run is an interrupted one from here on
+        st.ghost["raised_in_try"] = self.try_depth      # 0: raised outside every try body of the function under proof
         self.rstack[-1].append((exc, st))
 
     def sym_int(self, name):
@@ -1388,7 +1392,12 @@ class Engine:
 
     def ex_Try(self, n, st):
         outs = []
-        for kind, val, s in self.run(n.body, st):
+        self.try_depth += 1
+        try:
+            body_outs = self.run(n.body, st)
+        finally:
+            self.try_depth -= 1
+        for kind, val, s in body_outs:
             res = [(kind, val, s)]
             if kind == "raise":
                 for h in n.handlers:
